@@ -168,8 +168,10 @@ Definition kmap (sg : string -> string) (k : expr) : expr :=
 
 Section Rename.
   (* [unfold I] = unfold_poolsums(I.evaluate()) of HelicityModel.expression (ampform.sympy.PoolSum,
-     SymPy's Add; trusted / C18), [nrank] = rank of a NAME under helicity.naming.natural_sorting,
-     [arank a] = rank of str(a) under natural_sorting for an amplitude key. *)
+     SymPy's Add; trusted / C18); [nrank n] = rank of the NAME n in the total preorder the attrs
+     converters _order_symbol_mapping / _order_component_mapping sort by (natural_sorting, ties
+     broken as the converter does); [arank a] = the same for an amplitude key under
+     _order_amplitudes.  The correspondence run extracts both preorders from the converters. *)
   Variable unfold : expr -> expr.
   Variable nrank : string -> nat.
   Variable arank : expr -> nat.
